@@ -36,7 +36,7 @@ def make_specs(ctx: Ctx, n):
             init = qinit(gen.rand_initial_states(rng, m, 6))
             plan.append({"op": "simulate", "target": "simulate", "init": init, "seed": rng.randrange(10**6), "vsrc": "given"})
             groups += ["c02", "c03"]
-        specs.append(mk_spec(i, m, groups, plan, label=label))
+        specs.append(mk_spec(i, m, groups, plan, label=label + ("; float64" if i % 5 == 4 else ""), x64=i % 5 == 4))
     return specs
 
 
